@@ -1,4 +1,5 @@
 """C08 — the state point cache is transparent, and update_cache makes it exact."""
+import copy
 import gzip
 import itertools
 import json
@@ -10,7 +11,7 @@ import shutil
 from .common import Case, coq_json, coq_list, coq_str, exn_name, scratch_dir, to_plain, typed, untyped
 
 PROP = "C08"
-IMPORTS = "Base Json MD5 Canon FS Ws Cache CorrC08"
+IMPORTS = "Base Json MD5 Canon FS Ws Cache CorrC01 CorrC08"
 CASE_TYPE = "case_C08"
 MISMATCHES = "mismatches_C08"
 VIOLATIONS = "violations_C08"
@@ -38,7 +39,10 @@ EXHAUSTIVE = {"quick": False, "thorough": True}
 
 # ids 7f9f..., 7f8b..., 706d..., b1b4...: u0/u1 share two hex characters, u2 shares one with them
 # u4 is the EMPTY state point (id 99914b...): falsy in Python, must be cached and served like any other
-UNIV = [{"a": 0, "b": 0}, {"a": 1, "b": 123}, {"b": {"c": 2}, "a": 0}, {"a": 1, "b": [1, 1]}, {}]
+# u5 holds TUPLES (valid input, stored as lists): whatever the cache serves must be the stored value, not the caller's
+UNIV = [{"a": 0, "b": 0}, {"a": 1, "b": 123}, {"b": {"c": 2}, "a": 0}, {"a": 1, "b": [1, 1]}, {},
+        {"a": 0, "t": (1, (2, 3))}]
+SCALE = 2001      # > 2000 uncached jobs and not divisible by the chunk number of _update_in_memory_cache
 # abbreviated ids opened in every observation: too short (""), shared by 3 / 2 ids, unique ones, no match
 ABBREVS = ["", "7", "7f", "7f9", "7f8", "70", "b", "b1b", "9", "e"]
 _HEX = re.compile(r"^[0-9a-f]{32}")
@@ -77,6 +81,14 @@ DIRECTED = [
     # the empty state point {} cached (persistently / in memory), stale, re-keyed
     [["init", 4], ["init", 0], ["update"], ["restart"], ["query"], ["remove", 4], ["query"], ["update"], ["init", 4], ["restart"], ["query"], ["update"]],
     [["init", 4], ["query"], ["rekey", 4, 1], ["query"], ["update"], ["rekey", 0, 4], ["rekey", 1, 4], ["restart"], ["query"], ["update"], ["update"]],
+    # a state point given with tuples: what the session serves (cached_statepoint) is the stored value (seeded C08-7)
+    [["init", 5], ["query"], ["restart"], ["query"], ["update"], ["query"]],
+    [["init", 5], ["init", 0], ["query"], ["update"], ["query"], ["rekey", 0, 5], ["query"], ["rekeyid", 5, 1], ["query"]],
+    # re-key through a handle reached BY ID; the old id must not be served with the new state point (seeded C01-8)
+    [["init", 0], ["init", 3], ["query"], ["rekeyid", 0, 1], ["query"], ["update"], ["query"], ["restart"], ["query"]],
+    [["init", 0], ["update"], ["restart"], ["query"], ["rekeyid", 0, 2], ["query"], ["update"], ["query"], ["restart"], ["query"]],
+    [["init", 0], ["init", 1], ["query"], ["rekeyid", 0, 1], ["query"], ["rekeyid", 2, 3], ["query"]],
+    [["init", 0], ["query"], ["remove", 0], ["rekeyid", 0, 1], ["query"], ["update"], ["query"]],
     # stale in-memory entries
     [["init", 0], ["init", 1], ["query"], ["remove", 0], ["query"], ["rekey", 1, 2], ["query"], ["update"], ["update"], ["restart"], ["query"]],
     [["init", 0], ["rekey", 0, 0], ["rekey", 0, 1], ["rekey", 1, 1], ["rekey", 2, 3], ["update"], ["restart"], ["rekey", 1, 0], ["init", 1], ["rekey", 0, 1], ["update"], ["update"]],
@@ -95,8 +107,10 @@ def _rand_history(rng, n):
             steps.append(["init", rng.randrange(len(UNIV))])
         elif r < 0.36:
             steps.append(["remove", rng.randrange(len(UNIV))])
-        elif r < 0.48:
+        elif r < 0.43:
             steps.append(["rekey", rng.randrange(len(UNIV)), rng.randrange(len(UNIV))])
+        elif r < 0.50:
+            steps.append(["rekeyid", rng.randrange(len(UNIV)), rng.randrange(len(UNIV))])
         elif r < 0.66:
             steps.append(["update"])
         elif r < 0.79:
@@ -128,6 +142,10 @@ def gen_inputs(tier, rng):
     for i in range(nrand):
         n = rng.choice([6, 10, 16, 24, 40]) if tier == "quick" else rng.randint(5, 40)
         descs.append({"pre": [], "steps": _rand_history(rng, n), "filter": ["a", rng.randrange(2)]})
+    # the scale class: a workspace of SCALE jobs filled by another process, then update_cache() in a new session;
+    # no per-session observations (too many jobs), the cache file is compared exactly with os.listdir
+    descs.insert(0, {"pre": [], "scale": SCALE, "filter": ["a", 0],
+                     "steps": [["plant", SCALE], ["update"], ["file"], ["update"], ["restart"], ["update"], ["file"]]})
     return descs
 
 
@@ -159,7 +177,42 @@ def observe(q, root, flt):
             pres.append([p, ["exn", exn_name(e)]])
             continue
         pres.append([p, ["ok", j.id, _res(lambda j=j: typed(to_plain(j.statepoint())))]])
-    return {"find": find, "len": n, "ids": ids, "open": opens, "pre": pres}
+    # cached_statepoint of handles from iteration and from open_job(id=...), TYPE-EXACTLY (tuple is not list)
+    it = {}
+    try:
+        for j in q:
+            it[j.id] = _res(lambda j=j: texact(dict(j.cached_statepoint)))
+    except Exception as e:  # noqa: BLE001
+        it = {"$iteration": exn_name(e)}
+    cached = []
+    for i in dirs:
+        r = _res(lambda i=i: texact(dict(q.open_job(id=i).cached_statepoint)))
+        if it.get(i, r) != r:
+            r = ["ok", {"$iteration-handle-differs": [it.get(i), r]}]
+        cached.append([i, r])
+    others = [u for u in UIDS() if u not in dirs]
+    uopen = [[i, _res(lambda i=i: texact(q.open_job(id=i).statepoint()))] for i in others]
+    return {"find": find, "len": n, "ids": ids, "open": opens, "pre": pres, "cached": cached, "uopen": uopen}
+
+
+_UIDS = []
+
+
+def UIDS():
+    if not _UIDS:
+        _UIDS.extend(_calc_id(u) for u in UNIV)
+    return _UIDS
+
+
+def texact(v):
+    """type-exact JSON-able rendering: a tuple is NOT a list (shown as an object no model value equals)"""
+    if isinstance(v, tuple):
+        return {"$tuple": [texact(x) for x in v]}
+    if isinstance(v, list):
+        return [texact(x) for x in v]
+    if hasattr(v, "items"):
+        return {k: texact(x) for k, x in v.items()}
+    return typed(v)
 
 
 def read_cache_file(root):
@@ -179,6 +232,7 @@ def run_history(root, desc):
     ws = os.path.join(root, "workspace")
     os.makedirs(ws, exist_ok=True)
     texts = {json.dumps(u).encode() for u in UNIV}
+    observed = not desc.get("scale")
     flt = desc["filter"]
     project = signac.Project(root)
     out = []
@@ -186,14 +240,30 @@ def run_history(root, desc):
     for k, op in enumerate(list(desc.get("pre", [])) + list(desc["steps"])):
         kind = op[0]
         if kind == "init":
-            ret = _res(lambda: project.open_job(dict(UNIV[op[1]])).init() and None)
+            ret = _res(lambda: project.open_job(copy.deepcopy(UNIV[op[1]])).init() and None)
         elif kind == "remove":
-            ret = _res(lambda: project.open_job(dict(UNIV[op[1]])).remove())
+            ret = _res(lambda: project.open_job(copy.deepcopy(UNIV[op[1]])).remove())
         elif kind == "rekey":
             def _rk():
-                j = project.open_job(json.loads(json.dumps(UNIV[op[1]])))
-                j.statepoint = json.loads(json.dumps(UNIV[op[2]]))
+                j = project.open_job(copy.deepcopy(UNIV[op[1]]))
+                j.statepoint = copy.deepcopy(UNIV[op[2]])
             ret = _res(_rk)
+        elif kind == "rekeyid":
+            def _rki():
+                j = project.open_job(id=_calc_id(UNIV[op[1]]))
+                j.statepoint = copy.deepcopy(UNIV[op[2]])
+            ret = _res(_rki)
+        elif kind == "plant":
+            for n in range(op[1]):
+                d = os.path.join(ws, _calc_id({"i": n}))
+                if not os.path.exists(d):
+                    os.mkdir(d)
+                    with open(os.path.join(d, SPF), "wb") as fh:
+                        fh.write(json.dumps({"i": n}).encode())
+            texts |= {json.dumps({"i": n}).encode() for n in range(op[1])}
+            ret = ["ok", None]
+        elif kind == "file":
+            ret = ["file", read_cache_file(root), sorted(d for d in os.listdir(ws) if _HEX.match(d))]
         elif kind == "update":
             ret = _res(lambda: project.update_cache())
             if ret[0] == "exn":
@@ -224,7 +294,7 @@ def run_history(root, desc):
                 with open(fn, "rb") as fh:
                     assert fh.read() in texts, ("unexpected state point file text", d)
         sob = None
-        if k >= npre:
+        if k >= npre and observed:
             w = observe(signac.Project(root), root, flt)
             fn = os.path.join(root, CACHE)
             moved = os.path.exists(fn)
@@ -273,7 +343,10 @@ class Emit:
         pres = coq_list([f"({coq_str(p)}, " + (f"(Err {r[1]})" if r[0] == "exn" else
                                                f"(Ok ({self.id(r[1])}, {self.res_json(r[2])}))") + ")"
                          for p, r in o["pre"]], "(str * result (str * result json))")
-        return f"(mkX (mkObs {self.res_ids(o['find'])} {o['len']}%N {self.ids(o['ids'])} {opens}) {pres})"
+        cached = coq_list([f"({self.id(i)}, {self.res_json(r)})" for i, r in o["cached"]], "(str * result json)")
+        uopen = coq_list([f"({self.id(i)}, {self.res_json(r)})" for i, r in o["uopen"]], "(str * result json)")
+        return (f"(mkX (mkObs {self.res_ids(o['find'])} {o['len']}%N {self.ids(o['ids'])} {opens}) {pres} "
+                f"{cached} {uopen})")
 
     def cache(self, c):
         if c is None:
@@ -285,6 +358,8 @@ class Emit:
             return f"(RExn {r[1]})"
         if r[0] == "obs":
             return f"(RObs {self.obs(r[1])})"
+        if r[0] == "file":
+            return f"(RFile {self.cache(r[1])} {self.ids(r[2])})"
         if op[0] == "update":
             return "RNone" if r[1] is None else f"(RNum {int(r[1])}%N)"
         return "RUnit"
@@ -300,6 +375,12 @@ class Emit:
             return f"(HRekey {u(op[1])} {u(op[2])})"
         if k == "misname":
             return f"(HMisname {u(op[1])} {u(op[2])})"
+        if k == "rekeyid":
+            return f"(HRekeyId {u(op[1])} {u(op[2])})"
+        if k == "plant":
+            return f"(HPlant plant_{op[1]})"
+        if k == "file":
+            return "HFile"
         return {"update": "HUpdate", "restart": "HRestart", "delcache": "HDelCache", "query": "HQuery"}[k]
 
     def step(self, s):
@@ -319,12 +400,24 @@ def run_case(desc):
     E = Emit()
     prelude = [(f"u8_{n}", f"Definition u8_{n} : json := {coq_json(u)}.") for n, u in enumerate(UNIV)]
     prelude.append(("univ8", "Definition univ8 : list json := [%s]." % "; ".join(f"u8_{n}" for n in range(len(UNIV)))))
+    prelude.append(("tab8u", "Definition tab8u : list (list N * json) := map (fun v => (dumps (ftab_lookup []) v, v)) univ8."))
+    prelude.append(("uids8", "Definition uids8 : list str := %s." % coq_list([E.id(i) for i in UIDS()], "str")))
     prelude.append(("pres8", "Definition pres8 : list str := %s." % coq_list([coq_str(p) for p in ABBREVS], "str")))
+    tab, uids, pres = "tab8u", "uids8", "pres8"
+    if desc.get("scale"):
+        n = desc["scale"]
+        prelude.append((f"plant_{n}", f"Definition plant_{n} : list json := "
+                        f"map (fun k => JObj [([105%N], JInt (Z.of_nat k))]) (seq 0 {n})."))
+        prelude.append((f"tab_{n}", f"Definition tab_{n} : list (list N * json) := "
+                        f"map (fun v => (dumps (ftab_lookup []) v, v)) plant_{n}."))
+        tab, uids, pres = f"tab_{n}", "(@nil str)", "(@nil str)"
     body = coq_list([E.step(s) for s in steps], "hstep")
     flt = desc["filter"]
-    coq = ("{| c8_ftab := []; c8_univ := univ8; c8_key := %s; c8_val := %s; c8_pres := pres8; c8_steps := %s |}"
-           % (coq_str(flt[0]), coq_json(flt[1]), body))
-    prelude += list(E.prelude.items())
+    coq = ("{| c8_ftab := []; c8_tab := %s; c8_uids := %s; c8_key := %s; c8_val := %s; c8_pres := %s; c8_steps := %s |}"
+           % (tab, uids, coq_str(flt[0]), coq_json(flt[1]), pres, body))
+    # definitions must precede their uses: ids first
+    prelude = list(E.prelude.items()) + [x for x in prelude if x[0] not in E.prelude]
+    return_prelude = prelude
     allops = list(desc.get("pre", [])) + list(desc["steps"])
     kinds_seen = [o[0] for o in allops]
     # non-trivial: a workspace change after a cache file was written, followed by update_cache or a restart
@@ -335,7 +428,7 @@ def run_case(desc):
             if changed:
                 nontriv = True
             seen_update = True
-        elif o in ("init", "remove", "rekey", "misname") and seen_update:
+        elif o in ("init", "remove", "rekey", "rekeyid", "misname", "plant") and seen_update:
             changed = True
         elif o == "restart" and changed:
             nontriv = True
@@ -344,7 +437,12 @@ def run_case(desc):
         kinds.append("some-op-raises")
     if any(s["op"][0] == "update" and s["ret"] == ["ok", None] for s in steps):
         kinds.append("update-returns-None")
-    return Case(coq, desc, obs={"steps": steps[-3:]}, nontrivial=nontriv, kinds=kinds, prelude=prelude)
+    if desc.get("scale"):
+        nontriv = True
+        kinds.append("scale:%d" % desc["scale"])
+        steps = [{"op": x["op"], "ret": x["ret"][:1] + [len(y) if isinstance(y, list) else y for y in x["ret"][1:]]}
+                 for x in steps]
+    return Case(coq, desc, obs={"steps": steps[-3:]}, nontrivial=nontriv, kinds=kinds, prelude=return_prelude)
 
 
 def search(desc):
